@@ -29,8 +29,20 @@ apart (1 / 1.0 / True, records with equal sort keys, NaN objects) pin down
 *which* element an order- or equality-sensitive operation moved or found:
 drv_list_ties covers sort/sorted/min/max (every key function x every form of
 `reverse`) and remove/index/count/in on such elements.
+
+The missing-value marker is a *class* of values, not one object: everything
+that compares equal to pg.MISSING_VALUE is the marker (the typed placeholders
+`pg.typing.MissingValue(spec)` that partial symbolic objects hold for their
+unfilled fields, a deep copy, a marker that went through JSON).  Every
+operation that takes the marker (`M` in its source) is therefore also run with
+the other forms (`marker_variants`): item / attribute assignment, update in all
+its argument forms, |=, rebind (1..n paths, nested paths, through ancestors, via
+a rebinder function, with notification off), the constructors, append / extend,
+and copying from a partial pg.Dict as a whole (update / |= / constructor /
+item by item).
 """
 import itertools
+import re
 
 import pyglove as pg
 from pyvc.bounded import Recorder, rng
@@ -59,6 +71,50 @@ def N(v):
 
 _ENV = dict(pg=pg, M=M, Ins=Ins, N=N)
 _CODE = {}
+
+# ---------------------------------------------------------------------------
+# Forms of the missing-value marker (all of them == pg.MISSING_VALUE, none of
+# them *is* pg.MISSING_VALUE).  name -> (source line defining it, names it needs).
+# PD is a partial pg.Dict: 'a' and 'b' are unfilled (typed markers), 'new' is 1.
+# ---------------------------------------------------------------------------
+_MARKER_DEFS = {
+    'MT': ('MT=pg.typing.MissingValue(pg.typing.Int())', ()),
+    'PD': ("PD=pg.Dict.partial(value_spec=pg.typing.Dict([('a',pg.typing.Int()),('new',pg.typing.Int(default=1)),"
+           "('b',pg.typing.List(pg.typing.Any()))]))", ()),
+    'MF': ("MF=PD.sym_getattr('b')", ('PD',)),
+    'MC': ("MC=__import__('copy').deepcopy(M)", ()),
+    'MJ': ('MJ=pg.from_json(pg.to_json(M))', ()),
+}
+_MARKER_NAME = re.compile(r'\b(' + '|'.join(_MARKER_DEFS) + r')\b')
+for _name in ('MT', 'PD', 'MF', 'MC', 'MJ'):
+  try:
+    exec(_MARKER_DEFS[_name][0], _ENV)  # pylint: disable=exec-used
+  except Exception:  # pylint: disable=broad-except
+    pass    # (a changed tree: every operation that names it fails with NameError and is recorded)
+
+# (name, input class in the case id); an operation gets one form of each class.
+_MARKER_FORMS = [[('MT', 'typed-marker'), ('MC', 'marker-copy')],
+                 [('MF', 'typed-marker'), ('MJ', 'marker-copy')]]
+_M_TOKEN = re.compile(r'\bM\b')
+
+# Input classes that are defined by something else than the spelling of a
+# deletion and hold for every form of the marker: no marker suffix.
+_FORM_FREE_IDS = {'list.rebind-multi/several-past-end',
+                  'nested-list.anc-rebind/notification-off/with-delete',
+                  'nested-dict.anc-rebind/several-new-keys/list-receiver'}
+
+
+def _marker_defs_for(text):
+  """The definition lines of the marker names used in `text` (for witnesses)."""
+  need = []
+  def add(n):
+    for d in _MARKER_DEFS[n][1]:
+      add(d)
+    if n not in need:
+      need.append(n)
+  for n in _MARKER_NAME.findall(text):
+    add(n)
+  return [_MARKER_DEFS[n][0] for n in need]
 
 
 def _compile(src):
@@ -114,6 +170,39 @@ class Op:
     return self._cid(r) if callable(self._cid) else self._cid
 
 
+def _with_marker(op, name, label):
+  """`op` with the marker spelled `name` instead of `M`; the reference is the same."""
+  assert op.ref is not None, op.src      # (the plain container never sees a marker)
+  def cid(r):
+    c = op.cid(r)
+    # (key / index classes are covered with pg.MISSING_VALUE itself: the class here is operation x marker form)
+    return c if c in _FORM_FREE_IDS else f"{c.split('/')[0]}/{label}"
+  v = Op(_M_TOKEN.sub(name, op.src), cid, ref=op.ref, alts=op.alts, mut=op.mut)
+  if hasattr(op, 'sib_fn'):
+    v.sib_fn = op.sib_fn
+  return v
+
+
+def marker_variants(ops, start=0, one=False):
+  """Every op that takes the marker, with the other forms of the marker.
+
+  Each op gets one typed marker and one untyped copy (which of the two of each
+  class alternates from op to op); with `one`, a single form per op, cycling
+  through all four.
+  """
+  out = []
+  n = start
+  for op in ops:
+    if not _M_TOKEN.search(op.src):
+      continue
+    if one:
+      out.append(_with_marker(op, *_MARKER_FORMS[n % 2][(n // 2) % 2]))
+    else:
+      out.extend(_with_marker(op, *f) for f in _MARKER_FORMS[n % 2])
+    n += 1
+  return out
+
+
 _WITNESS_HEAD = '''import pyglove as pg
 M=pg.MISSING_VALUE;Ins=pg.Insertion;nan=float('nan')
 def N(v):
@@ -131,13 +220,14 @@ def run(s):
 
 def _witness(ctor, init, prefix, src, check):
   """ctor: 'List' / 'Dict', or complete source lines that bind `x`."""
-  lines = [_WITNESS_HEAD, f'x = pg.{ctor}({init!r})' if ctor in ('List', 'Dict') else ctor]
+  lines = [f'x = pg.{ctor}({init!r})' if ctor in ('List', 'Dict') else ctor]
   for p in prefix:
     lines.append(f'run({p!r})')
   if src is not None:
     lines.append(f'got = run({src!r})')
   lines.append(check)
-  return '\n'.join(lines)
+  body = '\n'.join(lines)
+  return '\n'.join([_WITNESS_HEAD] + _marker_defs_for(body) + [body])
 
 
 # ---------------------------------------------------------------------------
@@ -488,7 +578,7 @@ def list_read_ops(lo, hi, steps, sample_vals):
     kc = 'k<=0' if k <= 0 else ('k=1' if k == 1 else 'k>1')
     ops.append(Op(f'(lambda c: [c.append(99), list(c), list(x)][1:])(x * {k})', f'list.mul/{kc}', mut=False))
     ops.append(Op(f'{k} * x', f'list.rmul/{kc}', mut=False))
-  return ops
+  return ops + marker_variants(ops)
 
 
 _VALS = [5, 'v', None, [6, [7]], {'k': 8}]
@@ -500,6 +590,9 @@ def list_write_ops(lo, hi, steps, max_new, vals=None, slices=True, multi=True):
   for v in vals:
     ops.append(Op(f'x.append({v!r})', 'list.append'))
   ops.append(Op('x.append(M)', 'list.append/MISSING(no-op)', ref=lambda r: None))
+  # a marker among the values of extend / += is skipped like an appended one
+  ops.append(Op('x.extend([M, 7, M])', 'list.extend/with-MISSING(skipped)', ref=lambda r: r.extend([7])))
+  ops.append(Op('x += [7, M]', 'list.iadd/with-MISSING(skipped)', ref=lambda r: r.extend([7])))
   for i in range(lo, hi + 1):
     for v in vals[:2] + vals[3:4]:
       ops.append(Op(f'x.insert({i}, {v!r})', _ins_cid(i)))
@@ -562,6 +655,7 @@ def list_write_ops(lo, hi, steps, max_new, vals=None, slices=True, multi=True):
   ops.append(Op('x.rebind(lambda k, v: v + 100 if isinstance(v, int) and not isinstance(v, bool) else v, raise_on_no_change=False)',
                 'list.rebind/rebinder',
                 ref=lambda r: _map_ints(r)))
+  n_single = len(ops)
   if multi:
     idx = list(range(0, hi + 1))
     for a, b in itertools.combinations(idx, 2):
@@ -575,6 +669,8 @@ def list_write_ops(lo, hi, steps, max_new, vals=None, slices=True, multi=True):
       for ks in itertools.product('rid', repeat=3):
         ups = [(a, ks[0], 70 + a), (b, ks[1], 70 + b), (c, ks[2], 70 + c)]
         ops.append(Op(_rebind_src(ups), _rebind_cid(ups), ref=_ref_rebind(ups), alts=_alts_rebind(ups)))
+  # the other forms of the marker: two per single operation, one per set of several paths
+  ops += marker_variants(ops[:n_single]) + marker_variants(ops[n_single:], one=True)
   if slices:
     bounds = [None] + list(range(lo, hi + 1))
     for s in bounds:
@@ -630,7 +726,9 @@ def drv_list_single(tier, seed):
       'C02', 'pg.List single operations vs list',
       scope=f'initial lists: range(n) n<=5 + duplicates/nested/mixed; every read and write op of the list API '
             f'(indices and slice bounds in [-n-2, n+2]+None for n<={max_len}, steps {steps}, slice-assignment sizes 0..n+1, '
-            f'rebind with 1..3 paths x replace/insert/delete, MISSING, Insertion); full state comparison after each')
+            f'rebind with 1..3 paths x replace/insert/delete, MISSING, Insertion); every operation that takes the missing-value marker '
+            f'also with a typed marker (pg.typing.MissingValue(spec), field of a partial pg.Dict) and an untyped copy (deepcopy, JSON round trip); '
+            f'full state comparison after each')
   for init in _list_inits(5):
     n = len(init)
     wide = n <= max_len
@@ -694,6 +792,9 @@ def _hist_alphabet(size):
               [(0, 'i', 60), (1, 'd', 0)], [(0, 'd', 0), (2, 'r', 62)], [(1, 'r', 61), (7, 'r', 67)],
               [(0, 'r', [1]), (1, 'i', {'a': 2}), (2, 'd', 0)]):
     ops.append(Op(_rebind_src(ups), _rebind_cid(ups), ref=_ref_rebind(ups), alts=_alts_rebind(ups)))
+  if not size:
+    # other forms of the marker: item assignment, one single-path and one multi-path rebind
+    ops += marker_variants([o for o in ops if o.src in ('x[1] = M', 'x.rebind({0: M})', 'x.rebind({0: M, 2: 62})')], one=True)
   return ops[:size] if size else ops
 
 
@@ -721,12 +822,18 @@ def _deep_ops():
     r[0].insert(0, 3)
     r[1]['a'] = None
     return r
+  def d5(r):
+    del r[1]['a']
+    del r[0][0]
+    return r
   return [
       mk("x.rebind({'[0][1]': 9})", 'list.rebind-deep/replace', d0),
       mk("x.rebind({'[1].a': 7, '[1].n': [1]})", 'list.rebind-deep/dict-keys', d1),
       mk("x.rebind({'[0][5]': 5})", lambda r: 'list.rebind-deep/' + ('append' if len(r[0]) <= 5 else 'replace'), d2),
       mk("x.rebind({'[1].a': M})", 'list.rebind-deep/delete-key', d3),
       mk("x.rebind({'[0][0]': Ins(3), '[1].a': None})", 'list.rebind-deep/insert', d4),
+      mk("x.rebind({'[1].a': MT})", 'list.rebind-deep/delete-key/typed-marker', d3),
+      mk("x.rebind({'[1].a': MJ, '[0][0]': MF})", 'list.rebind-deep/delete-key+element/marker-forms', d5),
   ]
 
 
@@ -1045,6 +1152,13 @@ def _ref_dict_rebind(ups):
   return f
 
 
+def _REF_FROM_PD(r):  # pylint: disable=invalid-name
+  """Reference for copying the items of PD: ('a', marker), ('new', 1), ('b', marker)."""
+  r.pop('a', None)
+  r['new'] = 1
+  r.pop('b', None)
+
+
 def _val_src(v):
   return 'M' if v is M else repr(v)
 
@@ -1070,7 +1184,21 @@ def dict_ops(keys=None, vals=None):
         Op(f'x[{k!r}] = M', lambda r, p=p, kc=kc: f'dict.setitem-MISSING/{kc}/{p(r)}', ref=_ref_setitem_m(k)),
         Op(f'x.update({{{k!r}: M}})', lambda r, p=p, kc=kc: _upd_cid('dict.update-MISSING', kc, p(r)),
            ref=_ref_setitem_m(k)),
+        Op(f'x.update([({k!r}, M)])', lambda r, p=p, kc=kc: _upd_cid('dict.update-pairs-MISSING', kc, p(r)),
+           ref=_ref_setitem_m(k)),
+        Op(f'x |= {{{k!r}: M}}', lambda r, p=p, kc=kc: _upd_cid('dict.ior-MISSING', kc, p(r)),
+           ref=_ref_setitem_m(k)),
+        # a marker as the *default* of a read is an ordinary value
+        Op(f'x.get({k!r}, MT)', lambda r, p=p, kc=kc: f'dict.get-default/{kc}/{p(r)}/marker-as-default', mut=False),
+        Op(f'x.pop({k!r}, MC)', lambda r, p=p, kc=kc: f'dict.pop-default/{kc}/{p(r)}/marker-as-default'),
     ]
+    if isinstance(k, str) and k.isidentifier():
+      ops += [
+          Op(f'x.{k} = M', lambda r, p=p: f'dict.setattr-MISSING/{p(r)}', ref=_ref_setitem_m(k)),
+          Op(f'x.update({k}=M)', lambda r, p=p: f'dict.update-kwargs-MISSING/{p(r)}', ref=_ref_setitem_m(k)),
+          Op(f'x.rebind({k}=M, raise_on_no_change=False)', lambda r, p=p: f'dict.rebind-kwargs-MISSING/{p(r)}',
+             ref=_ref_dict_rebind([(k, M)])),
+      ]
     if kc != 'path-syntax-key':
       # rebind keys are key paths by documentation; only path-free keys are
       # comparable with a plain item assignment / deletion.
@@ -1141,8 +1269,27 @@ def dict_ops(keys=None, vals=None):
       Op('dict(pg.Dict(dict(x), gone=M, extra=1))', 'dict.ctor-with-MISSING', mut=False, ref=lambda r: dict(r, extra=1)),
       Op('dict(pg.Dict(dict(x), a=99, b=98))', 'dict.ctor-kwargs-override', mut=False, ref=lambda r: dict(r, a=99, b=98)),
       Op('dict(pg.Dict.fromkeys(list(x), 0))', 'dict.fromkeys', mut=False, ref=lambda r: dict.fromkeys(list(r), 0)),
+      # the marker among the constructor's items: that key is not there
+      Op('dict(pg.Dict({**dict(x), "gone": M, "extra": 1, "a": M}))', 'dict.ctor-dict-with-MISSING', mut=False,
+         ref=lambda r: {k: v for k, v in dict(r, extra=1).items() if k != 'a'}),
+      Op('dict(pg.Dict(list(x.items()) + [("gone", M), ("extra", 1)]))', 'dict.ctor-pairs-with-MISSING', mut=False,
+         ref=lambda r: dict(r, extra=1)),
+      Op('dict(pg.Dict(dict(x), a=M, b=98))', 'dict.ctor-kwargs-override-with-MISSING', mut=False,
+         ref=lambda r: {k: v for k, v in dict(r, b=98).items() if k != 'a'}),
+      Op('x.update({"b": M, "zz": 1, "a": M, "new": M})', 'dict.update-multi-MISSING', 
+         ref=lambda r: (_ref_dict_rebind([('b', M), ('zz', 1), ('a', M), ('new', M)])(r), None)[1]),
+      # copying from a partial symbolic dict (PD: 'a' and 'b' unfilled, 'new' = 1), as a whole and item by item
+      Op('x.update(PD)', 'dict.update/partial-pg.Dict', ref=_REF_FROM_PD),
+      Op('x |= PD', 'dict.ior/partial-pg.Dict', ref=_REF_FROM_PD),
+      Op('for k_, v_ in PD.sym_items(): x[k_] = v_', 'dict.setitem/items-of-partial-pg.Dict', ref=_REF_FROM_PD),
+      Op('for k_, v_ in PD.items(): setattr(x, k_, v_)', 'dict.setattr/items-of-partial-pg.Dict', ref=_REF_FROM_PD),
+      Op('x.rebind(dict(PD.sym_items()), raise_on_no_change=False)', 'dict.rebind/items-of-partial-pg.Dict',
+         ref=lambda r: (_REF_FROM_PD(r), r)[1]),
+      Op('dict(pg.Dict(PD))', 'dict.ctor-from-partial-pg.Dict', mut=False, ref=lambda r: {'new': 1}),
+      Op('dict(pg.Dict(dict(x), **PD))', 'dict.ctor-kwargs-from-partial-pg.Dict', mut=False,
+         ref=lambda r: (lambda c: (_REF_FROM_PD(c), c)[1])(dict(r))),
   ]
-  return ops
+  return ops + marker_variants(ops)
 
 
 def _dict_deep_ops():
@@ -1161,6 +1308,8 @@ def _dict_deep_ops():
       Op("x.rebind({'a.x[0]': 9, 'a.y': 3})", 'dict.rebind-deep/replace', ref=d0),
       Op("x.rebind({'a.x': M})", 'dict.rebind-deep/delete-key', ref=d1),
       Op("x.rebind({'a.x[0]': Ins(4), 'b': 1})", 'dict.rebind-deep/insert', ref=d2),
+      Op("x.rebind({'a.x': MF})", 'dict.rebind-deep/delete-key/typed-marker', ref=d1),
+      Op("x.rebind({'a.x': MC})", 'dict.rebind-deep/delete-key/marker-copy', ref=d1),
   ]
 
 
@@ -1179,6 +1328,9 @@ def drv_dict_single(tier, seed):
       'C02', 'pg.Dict single operations vs dict',
       scope=f'{len(_DICT_INITS)} initial dicts (str/int keys incl. keys containing . [ ] and the empty string); '
             f'every read/write op of the dict API x {len(_DKEYS)} keys x {len(_DVALS)} values; '
+            'item/attribute assignment, update (dict, pairs, kwargs), |=, rebind and the constructors with the missing-value marker in 5 forms '
+            '(pg.MISSING_VALUE, pg.typing.MissingValue(spec), unfilled field of a partial pg.Dict, deepcopy, JSON round trip); '
+            'update / |= / constructor / item-wise copy from a partial pg.Dict; '
             'full state comparison (order included) after each')
   ops = dict_ops()
   for init in _DICT_INITS:
@@ -1221,6 +1373,9 @@ def _dict_hist_alphabet():
       Op("list(x.items())", c('dict.items'), mut=False),
       Op("x | {'z': 1}", c('dict.or/h'), mut=False),
   ]
+  # other forms of the marker: item assignment and the multi-path rebind, and a copy from a partial pg.Dict
+  ops += marker_variants(ops, one=True)
+  ops.append(Op('x.update(PD)', 'dict.update/partial-pg.Dict/h', ref=_REF_FROM_PD))
   return ops
 
 
@@ -1228,7 +1383,7 @@ def drv_dict_histories(tier, seed):
   rec = Recorder(
       'C02', 'pg.Dict mutation histories vs dict',
       scope=('all histories of length <=' + ('2' if tier == 'quick' else '3')
-             + ' over a 22-op alphabet from 3 initial dicts; seeded random histories of length <=12 over the full '
+             + f' over a {len(_dict_hist_alphabet())}-op alphabet from 3 initial dicts; seeded random histories of length <=12 over the full '
                'single-op alphabet; outcome and full state (order included) compared after every step'))
   alpha = _dict_hist_alphabet()
   inits = [{}, {'a': 1, 'b': 2, 0: 'z'}, {'b': {'x': 1}, 'a': [1]}]
@@ -1521,6 +1676,7 @@ def _direct_list_ops():
     ops.append(Op(f'x[{i}] = M', lambda r, i=i: f'list.setitem-MISSING/{_icls(i, len(r))}',
                   ref=_ref_setitem_missing(i)))
   ops.append(Op('x.append(M)', 'list.append/MISSING(no-op)', ref=lambda r: None))
+  ops += marker_variants(ops[-5:], one=True)
   return ops + [_quiet(o) for o in ops if o.mut]
 
 
@@ -1564,7 +1720,7 @@ def drv_nested(tier, seed):
       'C02', 'nested pg.List / pg.Dict: direct and ancestor-level updates, with and without change notification, vs list / dict',
       scope=(f'4 initial lists (len 0,1,3,4) and 3 initial dicts; {len(_HOSTS)} hosts (top level, value of a Dict, element of a List, field of an Object, depth 3, below an '
              'Object inside a Dict); every ancestor as receiver of rebind; update sets of 1..3 paths x replace / insert '
-             '(Insertion) / delete (MISSING_VALUE) incl. negative and past-the-end indices, optionally with an update of a '
+             '(Insertion) / delete (MISSING_VALUE, also spelled as a typed marker or an untyped copy of it) incl. negative and past-the-end indices, optionally with an update of a '
              'sibling list in the same call; 5 delivery modes (default, notify_parents=False, skip_notification=True, '
              'pg.notify_on_change(False), rebinder function); the history alphabets applied directly to the nested '
              'container, each mutator also under pg.notify_on_change(False); seeded random histories (length <=10) mixing '
@@ -1592,17 +1748,28 @@ def drv_nested(tier, seed):
             sibs = _sib_choices(mode, len(_SIB0))
             op = anc_list_op(recv, tpre, spre, ups, mode, sibs[(ui + mi) % len(sibs)] if safe else None)
             NestedSession(rec, host, 'List', init, resync_on_fail=False).step(op, (host.name, init, op.src))
+            # a deletion spelled with another form of the marker: every single path, every 4th set of paths
+            # (quick: every delivery mode on the direct parent, the default mode on the higher ancestors)
+            if (any(k == 'd' for _, k, _ in ups) and (len(ups) == 1 or not quick or ui % 4 == 0)
+                and (not quick or ri == 0 or mi == 0)):
+              for v in marker_variants([op], start=ui + mi + ri, one=True):
+                NestedSession(rec, host, 'List', init, resync_on_fail=False).step(v, (host.name, init, v.src))
     for init in (dict_inits if not dear else dict_inits[1:2]):
       for op in direct_d:
         NestedSession(rec, host, 'Dict', init, resync_on_fail=False).step(op, (host.name, init, op.src))
-      for recv, tpre, spre, rkind in host.recv:
+      for ri, (recv, tpre, spre, rkind) in enumerate(host.recv):
         for mi, mode in enumerate(_ALL_MODES):
           sibs = _sib_choices(mode, len(_SIB0))
           for ui, ups in enumerate(_ANC_DICT_UPS):
             op = anc_dict_op(recv, tpre, spre, ups, mode, sibs[(ui + mi) % len(sibs)], rkind)
             NestedSession(rec, host, 'Dict', init, resync_on_fail=False).step(op, (host.name, init, op.src))
+            if not any(v is M for _, v in ups) or (quick and ri and mi):
+              continue
+            for v in marker_variants([op], start=ui + mi, one=True):
+              NestedSession(rec, host, 'Dict', init, resync_on_fail=False).step(v, (host.name, init, v.src))
   # Random histories mixing direct and ancestor-level operations.
   rnd = rng(seed, 'c02-nested')
+  rnd_form = rng(seed, 'c02-nested-marker-form')
   n_hist = 400 if quick else 8000
   for h in range(n_hist):
     host = rnd.choice(_HOSTS)
@@ -1633,6 +1800,8 @@ def drv_nested(tier, seed):
           keys = rnd.sample(['a', 'b', 'new', 0, 1, 'c'], rnd.randint(1, 3))
           ups = [(k, rnd.choice(_NEST_VALS + [M, M])) for k in keys]
           op = anc_dict_op(recv, tpre, spre, ups, mode, sib, rkind)
+        if _M_TOKEN.search(op.src) and rnd_form.random() < 0.4:
+          op = marker_variants([op], start=rnd_form.randrange(4), one=True)[0]
       s.step(op, ('rand', seed, h, j))
   return rec.result()
 
